@@ -110,7 +110,7 @@ func runLoader(c *drv.Ctx) error {
 		}
 	}
 	nx := c.Count(120, 3000)
-	for i := 0; i < nx; i++ {
+	for i := 0; i < nx && execHangs < 3; i++ {
 		if err := runExecCase(w, execCase{Seed: c.R.U64(), Whole: i%2 == 0}, "random"); err != nil {
 			return err
 		}
